@@ -59,5 +59,23 @@ func Select(hasDefault bool, cases ...Case) int {
 func Wait(c Case) {
 	if t := sched.Cur(); t != nil {
 		t.Select(false, []Case{c}, "chan-op")
+		return
+	}
+	// Outside a controlled execution the sequential checks run one request at a time: a channel operation that still
+	// cannot proceed after the grace period (which only a free-running background goroutine of the emulator could
+	// legitimately need) waits for something an EARLIER request failed to give back - e.g. a slot of a semaphore
+	// channel. Blocking natively would hang the checker; it is reported like a leaked mutex (vsync.LeakGrace).
+	if ready(c) {
+		return
+	}
+	deadline := time.Now().Add(LeakGrace)
+	for !ready(c) {
+		if time.Now().After(deadline) {
+			panic("verif: a channel operation cannot proceed although no other request is running: an earlier request did not give back what it took (the service is wedged)")
+		}
+		time.Sleep(200 * time.Microsecond)
 	}
 }
+
+// LeakGrace: see Wait.
+var LeakGrace = 8 * time.Second
